@@ -216,14 +216,25 @@ def write_fil(path, data2d, nbits, **hdr_kw):
     return len(hdr), len(body)
 
 
-def write_stream(dirpath, data2d, nbits, split, tsamp=1e-3, tstart=55000.0, prefix="in", **hdr_kw):
+def stream_name(prefix, i, style):
+    """File name of the i-th file of a stream.  The time order of the files is the order of the list handed to the
+    reader - not the alphabetical order of the names: 'unpadded' scan numbers (9, 10, 11) sort as 10, 11, 9 and
+    'reversed' letters sort backwards."""
+    if style == "unpadded":
+        return f"{prefix}_{9 + i}.fil"
+    if style == "reversed":
+        return f"{prefix}_{'zyx'[i]}.fil"
+    return f"{prefix}_{i}.fil"
+
+
+def write_stream(dirpath, data2d, nbits, split, tsamp=1e-3, tstart=55000.0, prefix="in", name_style="unpadded", **hdr_kw):
     """Write a contiguous multi-file stream.  split = list of per-file sample counts."""
     import os
 
     paths, hdrlens, datalens = [], [], []
     pos = 0
     for i, n in enumerate(split):
-        p = os.path.join(dirpath, f"{prefix}_{i}.fil")
+        p = os.path.join(dirpath, stream_name(prefix, i, name_style))
         # differing header lengths between files: rawdatafile may differ (match_header ignores it)
         raw = "r" * (1 + 3 * i)
         h, d = write_fil(p, data2d[pos : pos + n], nbits, tsamp=tsamp,
